@@ -1,36 +1,42 @@
-(* EquiCertModel.v — C16 at every size for constructed instances: the case carries a certificate (a diagonal d, a list of
-   elementary row operations, a matrix X, a column set B and a total-unimodularity witness for X) from which the judge
-   recomputes M = L X with L = ops(diag d), checks that the columns B of X form the identity and that X is certified totally
-   unimodular (network witness or series-parallel reduction).  Then M is equimodular with determinant gcd |prod d| for the
-   basis B (EquiUnique.equimodular_construct, minors_gcd_square, det_apply_ops), and by EquiUnique.equimodular_unique for no
-   other value, so the answer of CMRequimodularTest / CMRunimodularTest is known without any exponential oracle.
+(* EquiCertModel.v — C16 at every size and every rank for constructed instances: the case carries a certificate (a diagonal d
+   of length r <= m, a list of elementary row operations, a matrix X, a column set B and a total-unimodularity witness for X)
+   from which the judge recomputes M = L X with L = ops([diag d; 0]) (m x r), checks that the columns B of X (r x n) form the
+   identity and that X is certified totally unimodular (network witness or series-parallel reduction).  Then M has rank r and
+   is equimodular with determinant gcd |prod d| for the basis B (EquiUnique.equimodular_construct, minors_gcd_cert_L: the gcd
+   of the r x r minors of L is invariant under row operations), and by EquiUnique.equimodular_unique for no other value, so
+   the answer of CMRequimodularTest / CMRunimodularTest is known without any exponential oracle.  r = m is the full-row-rank
+   case (L square, |det L| = |prod d|: det_apply_ops).
    No proofs here. *)
 From Cmr Require Import Base Det TuModel GraphModel SpModel TuNetModel EquiModel.
 Local Open Scope Z_scope.
 
-(* elementary row operations on an m x m matrix *)
+(* elementary row operations on a matrix with m rows (and r columns) *)
 Inductive rowop := RAdd (i j : nat) (c : Z) | RSwap (i j : nat) | RNeg (i : nat).
 
 (* RAdd i j c: row i += c * row j (identity if i = j or an index is out of range); RSwap i j: exchange rows i and j
    (identity if an index is out of range); RNeg i: negate row i (identity if out of range) *)
-Definition apply_op (m : nat) (L : mat) (o : rowop) : mat :=
+Definition apply_op (m r : nat) (L : mat) (o : rowop) : mat :=
   match o with
   | RAdd i j c =>
     if Nat.ltb i m && Nat.ltb j m && negb (Nat.eqb i j)
-    then mk_mat m m (fun a b => if Nat.eqb a i then get L i b + c * get L j b else get L a b)
+    then mk_mat m r (fun a b => if Nat.eqb a i then get L i b + c * get L j b else get L a b)
     else L
   | RSwap i j =>
     if Nat.ltb i m && Nat.ltb j m
-    then mk_mat m m (fun a b => if Nat.eqb a i then get L j b else if Nat.eqb a j then get L i b else get L a b)
+    then mk_mat m r (fun a b => if Nat.eqb a i then get L j b else if Nat.eqb a j then get L i b else get L a b)
     else L
   | RNeg i =>
     if Nat.ltb i m
-    then mk_mat m m (fun a b => if Nat.eqb a i then - get L i b else get L a b)
+    then mk_mat m r (fun a b => if Nat.eqb a i then - get L i b else get L a b)
     else L
   end.
 
 Definition diag_mat (d : list Z) : mat :=
   mk_mat (length d) (length d) (fun i j => if Nat.eqb i j then nthZ d i else 0).
+
+(* the m x (length d) matrix [diag d; 0] (m >= length d); stack_diag (length d) d is diag_mat d *)
+Definition stack_diag (m : nat) (d : list Z) : mat :=
+  mk_mat m (length d) (fun i j => if Nat.eqb i j then nthZ d i else 0).
 
 (* the columns B (the first r of them) of the r x n matrix X form the r x r identity matrix *)
 Definition identity_at (r : nat) (X : mat) (B : list nat) : bool :=
@@ -56,18 +62,22 @@ Definition equi_cert_input :=
   d <- dlist dZ ;; ops <- dlist dop ;; xx <- dmat ;; B <- dlist dnat ;; w <- dwitness ;;
   dend (variant, kin, x, rc, v, kout, d, ops, xx, B, w).
 
-Definition cert_L (m : nat) (d : list Z) (ops : list rowop) : mat := fold_left (apply_op m) ops (diag_mat d).
+(* L = ops([diag d; 0]): m x r with r = length d <= m, of rank r when all d_i are nonzero *)
+Definition cert_L (m : nat) (d : list Z) (ops : list rowop) : mat :=
+  fold_left (apply_op m (length d)) ops (stack_diag m d).
 
-(* the certificate check: M (m x n) = L X with L = ops(diag d), all d_i nonzero, X (m x n) has the identity in the columns
-   B (|B| = m, increasing, below n) and is certified totally unimodular by w *)
+(* the certificate check: r = |d| <= m, M (m x n) = L X with L = ops([diag d; 0]) (m x r), all d_i nonzero, X (r x n) has the
+   identity in the columns B (|B| = r, increasing, below n) and is certified totally unimodular by w.  M has rank r; r = m is
+   the full-row-rank case *)
 Definition equi_cert_check (m n : nat) (M : mat) (d : list Z) (ops : list rowop)
            (xr xc : nat) (X : mat) (B : list nat) (w : witness) : bool :=
-  Nat.eqb (length d) m && forallb (fun x => negb (x =? 0)) d &&
-  Nat.eqb xr m && Nat.eqb xc n &&
-  wf_mat m m (cert_L m d ops) && wf_mat m n M && wf_mat m n X &&
-  mat_eqb M (mat_mul m m n (cert_L m d ops) X) &&
-  identity_at m X B && strictly_increasing B && all_lt n B && Nat.eqb (length B) m &&
-  tu_certified m n X w.
+  let r := length d in
+  Nat.leb r m && forallb (fun x => negb (x =? 0)) d &&
+  Nat.eqb xr r && Nat.eqb xc n &&
+  wf_mat m r (cert_L m d ops) && wf_mat m n M && wf_mat r n X &&
+  mat_eqb M (mat_mul m r n (cert_L m d ops) X) &&
+  identity_at r X B && strictly_increasing B && all_lt n B && Nat.eqb (length B) r &&
+  tu_certified r n X w.
 
 (* what the certificate says the library must answer: the determinant gcd *)
 Definition equi_cert_k (d : list Z) : Z := Z.abs (prod_list d).
